@@ -931,13 +931,24 @@ def _norm_block(lst, fn):
                 n += 1
         # a, b = x, y   ->   a = x; b = y      (when no target name occurs in the values)
         if isinstance(st, ast.Assign) and len(st.targets) == 1 and isinstance(st.targets[0], ast.Tuple) and isinstance(st.value, ast.Tuple) \
-                and len(st.targets[0].elts) == len(st.value.elts) and all(isinstance(e, ast.Name) for e in st.targets[0].elts) \
+                and len(st.targets[0].elts) == len(st.value.elts) \
+                and all(isinstance(e, ast.Name) or (isinstance(e, ast.Attribute) and isinstance(e.value, ast.Name)) for e in st.targets[0].elts) \
                 and not any(isinstance(e, ast.Starred) for e in st.value.elts):
-            tn = {e.id for e in st.targets[0].elts}
-            if not any(isinstance(x, ast.Name) and x.id in tn for v in st.value.elts for x in ast.walk(v)):
+            tg = st.targets[0].elts
+            # sequential assignment is equivalent when no later value reads an earlier target (values without calls after the first)
+            def reads(v, t):
+                d = ast.dump(_load(t))
+                return any(ast.dump(x) == d for x in ast.walk(v) if isinstance(x, (ast.Name, ast.Attribute)))
+            safe = all(not reads(st.value.elts[j], tg[i]) for i in range(len(tg)) for j in range(i + 1, len(tg))) \
+                and not any(_has_call(v) for v in st.value.elts[1:])
+            if safe:
                 new = []
                 for t, v in zip(st.targets[0].elts, st.value.elts):
-                    a = ast.Assign(targets=[ast.Name(id=t.id, ctx=ast.Store())], value=v)
+                    t2 = copy.deepcopy(t)
+                    for x in ast.walk(t2):
+                        if hasattr(x, "ctx") and x is t2:
+                            x.ctx = ast.Store()
+                    a = ast.Assign(targets=[t2], value=v)
                     ast.copy_location(a, st)
                     ast.fix_missing_locations(a)
                     new.append(a)
@@ -1196,6 +1207,96 @@ def outline_vanished_helpers(asts, ref):
                 (cnode.body if is_method else mod.body).append(rfn)
                 changed = True
                 done.append({"helper_restored": "%s:%s" % (rel, ".".join(k[1:])), "call_sites_restored": n_sites})
+        if changed:
+            _relink(mod, rel)
+    return done
+
+
+# ---------------------------------------------------------------------------------------------------------------------
+# a dict used as a key set where the reference used a set:  self.x = {} ; self.x[k] = None ; del self.x[k] ;
+# self.x.pop(k, None) ; k in self.x      ->      set() / add / remove / discard
+
+def keyset_dicts_to_sets(asts, ref):
+    from .canon import reference_function
+    done = []
+    if not ref:
+        return done
+    for rel, mod in asts.items():
+        if rel not in ref:
+            continue
+        changed = False
+        for c in mod.body:
+            if not isinstance(c, ast.ClassDef):
+                continue
+            # attributes the reference constructor created as set()
+            ref_sets = set()
+            for ctor in ("__init__", "__attrs_post_init__", "_init_other_state"):
+                rfn = reference_function(rel, ("meth", c.name, ctor))
+                if rfn is None:
+                    continue
+                for n in ast.walk(rfn):
+                    if isinstance(n, ast.Assign) and len(n.targets) == 1 and isinstance(n.targets[0], ast.Attribute) \
+                            and isinstance(n.targets[0].value, ast.Name) and n.targets[0].value.id == "self" \
+                            and isinstance(n.value, ast.Call) and isinstance(n.value.func, ast.Name) and n.value.func.id == "set" and not n.value.args:
+                        ref_sets.add(n.targets[0].attr)
+            for attr in sorted(ref_sets):
+                def is_x(e):
+                    return isinstance(e, ast.Attribute) and e.attr == attr and isinstance(e.value, ast.Name) and e.value.id == "self"
+                inits, stores, dels, pops, bad = [], [], [], [], False
+                for n in ast.walk(c):
+                    par = getattr(n, "_parent", None)
+                    if not is_x(n):
+                        continue
+                    if isinstance(par, ast.Assign) and n in par.targets:
+                        v = par.value
+                        if (isinstance(v, ast.Dict) and not v.keys) or (isinstance(v, ast.Call) and isinstance(v.func, ast.Name)
+                                                                       and v.func.id == "dict" and not v.args and not v.keywords):
+                            inits.append(par)
+                        else:
+                            bad = True
+                    elif isinstance(par, ast.Subscript) and par.value is n:
+                        gp = getattr(par, "_parent", None)
+                        if isinstance(par.ctx, ast.Store) and isinstance(gp, ast.Assign) and len(gp.targets) == 1 and isinstance(gp.value, ast.Constant):
+                            stores.append(gp)
+                        elif isinstance(par.ctx, ast.Del) and isinstance(gp, ast.Delete) and len(gp.targets) == 1:
+                            dels.append(gp)
+                        else:
+                            bad = True                       # a value is read: a real mapping
+                    elif isinstance(par, ast.Attribute) and par.value is n:
+                        gp = getattr(par, "_parent", None)
+                        ggp = getattr(gp, "_parent", None)
+                        if par.attr == "pop" and isinstance(gp, ast.Call) and isinstance(ggp, ast.Expr) and len(gp.args) in (1, 2):
+                            pops.append(gp)
+                        elif par.attr in ("get", "items", "values", "setdefault", "update", "popitem", "keys"):
+                            bad = True
+                if bad or not inits or not (stores or dels or pops):
+                    continue
+                for a in inits:
+                    a.value = ast.Call(func=ast.Name(id="set", ctx=ast.Load()), args=[], keywords=[])
+                    ast.fix_missing_locations(a)
+
+                def replace_stmt(old, new):
+                    for lst_owner in ast.walk(c):
+                        for f in ("body", "orelse", "finalbody"):
+                            lst = getattr(lst_owner, f, None)
+                            if isinstance(lst, list) and old in lst:
+                                ast.copy_location(new, old)
+                                ast.fix_missing_locations(new)
+                                lst[lst.index(old)] = new
+                                return
+
+                def call(meth, key):
+                    return ast.Expr(value=ast.Call(func=ast.Attribute(value=ast.Attribute(value=ast.Name(id="self", ctx=ast.Load()), attr=attr, ctx=ast.Load()),
+                                                                     attr=meth, ctx=ast.Load()), args=[key], keywords=[]))
+                for s_ in stores:
+                    replace_stmt(s_, call("add", _load(s_.targets[0].slice)))
+                for d in dels:
+                    replace_stmt(d, call("remove", _load(d.targets[0].slice)))
+                for p in pops:
+                    p.func.attr = "discard" if len(p.args) == 2 else "remove"
+                    del p.args[1:]
+                changed = True
+                done.append({"class": "%s:%s" % (rel, c.name), "keyset_dict_to_set": attr})
         if changed:
             _relink(mod, rel)
     return done
